@@ -62,7 +62,7 @@ Definition sweep_one (ops : list op) : bool :=
 Definition sweep (len : nat) : bool := forallb sweep_one (fam_workloads len 1).
 
 
-Lemma sweep4 : sweep 4 = true.
+Lemma sweep4 : forallb sweep_one (fam_workloads 4 1) = true.
 Proof. vm_compute. reflexivity. Qed.
 
 (* fam_workloads 4 1 has 41371 workloads (14 operations per position, lengths 0..4) *)
@@ -93,12 +93,14 @@ Lemma sweep_sound :
   exists s, In s ss /\ completed_b 2 ss n s = true /\ s_key s = k /\ c = full_stream s.
 Proof.
   intros ops Hops ss n Hn Hov k Hk c Hc.
-  pose proof sweep4 as Hs. unfold sweep in Hs. rewrite forallb_forall in Hs.
-  specialize (Hs ops Hops). unfold sweep_one in Hs. fold ss in Hs. rewrite forallb_forall in Hs.
+  assert (H1 : sweep_one ops = true) by exact (proj1 (forallb_forall sweep_one (fam_workloads 4 1)) sweep4 ops Hops).
+  unfold sweep_one in H1. fold ss in H1.
   assert (Hin : In n (seq 0 (S (length (all_writes 2 ss))))) by (apply in_seq; lia).
-  specialize (Hs n Hin). rewrite Hov in Hs. cbn [orb] in Hs. rewrite forallb_forall in Hs.
-  specialize (Hs k Hk). unfold hit_ok_b in Hs. rewrite Hc in Hs.
-  apply existsb_exists in Hs. destruct Hs as (s & Hin_s & Hs).
+  pose proof (proj1 (forallb_forall _ _) H1 n Hin) as H2. cbv beta in H2.
+  rewrite Hov in H2. cbn [orb] in H2.
+  pose proof (proj1 (forallb_forall _ _) H2 k Hk) as H3.
+  unfold hit_ok_b in H3. rewrite Hc in H3.
+  apply existsb_exists in H3. destruct H3 as (s & Hin_s & Hs).
   apply andb_prop in Hs. destruct Hs as [Hs Heq]. apply andb_prop in Hs. destruct Hs as [Hcomp Hkey].
   exists s. repeat split; auto using key_eqb_eq, atoms_eqb_eq.
 Qed.
